@@ -28,6 +28,12 @@ def setup(prog, ov=None, text=None, validate=True, variant="A", assemble=False):
 
         bseed = assemble[1] if isinstance(assemble, tuple) else 0
         o = lib.outcome(lambda: builder_route.via_builder(prog, bseed, native=native(variant))[0])
+    elif assemble == "build":
+        # the documented S-expression route; a loop whose only statement is a subcircuit block gets that block as its body
+        # directly (the builder accepts this shape, the text grammar has no spelling for it)
+        from . import c09
+
+        o = lib.outcome(lib.build, c09.loop_body_is_subcircuit(prog), native(variant))
     elif assemble:
         from .. import apiroute
 
@@ -43,7 +49,7 @@ def setup(prog, ov=None, text=None, validate=True, variant="A", assemble=False):
     try:
         # the reference is read from the circuit the parser made; a circuit put together through the builder is judged
         # against the PROGRAM it was meant to be (reading it back would take a builder's mistake for the intention)
-        s.core = M.core_from_sx(prog) if (assemble == "builder" or (isinstance(assemble, tuple) and assemble[0] == "builder")) else M.core_from_ir(s.c)
+        s.core = M.core_from_sx(prog) if (assemble in ("builder", "build") or (isinstance(assemble, tuple) and assemble[0] == "builder")) else M.core_from_ir(s.c)
         if validate:
             M.validate(s.core, ov or {})
         s.tree = M.full_meaning(s.core, env=ov or {})
@@ -70,6 +76,63 @@ def budget_for(P):
     return 20000 + BUDGET_PER_NODE * (size + nsub * len(P.nodes)) * depth
 
 
+def nesting_through_macros_ok(prog):
+    """No call of a macro that holds a subcircuit block (itself or through the macros it calls) from inside a subcircuit
+    block or a parallel block -- the indirect form of the nesting rule."""
+    holds = {}
+
+    def has_sub(s):
+        if not isinstance(s, tuple):
+            return False
+        if s[0] == "subcircuit_block":
+            return True
+        if s[0] == "gate":
+            return holds.get(s[1], False)
+        return any(has_sub(x) for x in s[1:])
+
+    def ok(s, inside):
+        if not isinstance(s, tuple):
+            return True
+        if s[0] == "gate":
+            return not (inside and holds.get(s[1], False))
+        if s[0] in ("subcircuit_block", "parallel_block"):
+            return all(ok(x, True) for x in s[1:])
+        return all(ok(x, inside) for x in s[1:])
+
+    for s in prog[1:]:
+        if s[0] == "macro":
+            if not ok(s[-1], False):
+                return False
+            holds[s[1]] = has_sub(s[-1])
+        elif s[0] not in sx.HEADER and not ok(s, False):
+            return False
+    return True
+
+
+def refused_when_built(prog, ov=None, variant="A"):
+    """The parser (or builder) refused the program.  Is it one that ought to run?  Decided on the model alone."""
+    if not sx.legal_nesting(prog) or not nesting_through_macros_ok(prog):
+        return None
+    try:
+        core = M.core_from_sx(prog)
+        M.validate(core, ov or {})
+        tree = M.full_meaning(core, env=ov or {})
+        funds = core.fundamental()
+        if len(funds) != 1:
+            return None
+        n = len(M.Evaluator(core, env=ov or {}, resolve=True).elems(funds[0], {}))
+        P = refexec.Program(tree, n, variant=variant)
+        if P.overlap() is not None or P.repeated_qubit_gate() is not None:
+            return None
+        scan = P.flat_scan()
+        if scan["trailing_gates"]:
+            return None
+    except (M.MeaningError, M.OracleError, refexec.Reject):
+        return None
+    return True
+
+
+
 _SHARED_BACKEND = [None]
 
 
@@ -83,7 +146,35 @@ def shared_backend():
     return _SHARED_BACKEND[0]
 
 
-def run(s, ov=None, seed=1, budget=None):
+PULSE_LINE = "from vf.pulsemod usepulses *\n"
+
+
+def run_text(text, entry):
+    """The program as text through run_jaqal_string / run_jaqal_file; the gates come from the module the text names."""
+    import os
+    import tempfile
+
+    mod = lib._m("jaqalpaq.run.run")
+    if entry == "string":
+        return mod.run_jaqal_string(PULSE_LINE + text)
+    d = tempfile.mkdtemp(prefix="vf-run-")
+    path = os.path.join(d, "prog.jaqal")
+    try:
+        with open(path, "w") as fd:
+            fd.write(PULSE_LINE + text)
+        return mod.run_jaqal_file(path)
+    finally:
+        try:
+            os.remove(path)
+        finally:
+            os.rmdir(d)
+
+
+def run(s, ov=None, seed=1, budget=None, entry=None):
+    if entry in ("string", "file") and not ov:
+        np.random.seed(seed)
+        del gateset.EVENT_LOG[:]
+        return lib.budgeted(run_text, budget or budget_for(s.P), s.text, entry)
     c = s.c
     if ov:
         o = lib.outcome(lib.fill_in_let, c, ov)
@@ -93,7 +184,19 @@ def run(s, ov=None, seed=1, budget=None):
     np.random.seed(seed)
     del gateset.EVENT_LOG[:]
     kw = {"backend": shared_backend()} if seed % 2 else {}
-    return lib.budgeted(lib.run, budget or budget_for(s.P), c, **kw)
+    if seed % 8 == 2:
+        kw = {"emulator_backend": shared_backend()}  # the older spelling of the same option (warns, must do the same)
+    elif seed % 8 == 4:
+        kw = {"force_sim": True}
+
+    def go():
+        import warnings
+
+        with warnings.catch_warnings():
+            warnings.simplefilter("ignore")
+            return lib.run(c, **kw)
+
+    return lib.budgeted(go, budget or budget_for(s.P))
 
 
 def result_view(res):
